@@ -35,6 +35,9 @@ Definition re_match (E : env) (r : Z) (s : list Z) : bool :=
   existsb (fun p => (fst p =? r) && zlist_eqb (snd p) s) (e_re E).
 
 (* ---------- trait descriptions ---------- *)
+(* one dimension of an Array shape specification: None / an int / (lo, hi-or-None) *)
+Inductive dim := DimAny | DimEq (n : Z) | DimRange (lo : Z) (hi : option Z).
+
 Inductive cast_ty := CTInt | CTFloat | CTComplex | CTStr | CTBytes | CTBool.
 
 Inductive desc :=
@@ -56,7 +59,8 @@ Inductive desc :=
 | DPrefixList (vals : list (list Z))             (* Python only *)
 | DPrefixMap (m : list (list Z * pv))            (* Python only *)
 | DCompound (ds : list desc)                     (* kind 7: Either / Trait(...) -> TraitCompound *)
-| DUnion (ds : list desc).                       (* Union: Python only *)
+| DUnion (ds : list desc)                        (* Union: Python only *)
+| DArray (dt : option Z) (shape : option (list dim)) (casting : Z).  (* numpy Array: Python only *)
 
 Inductive vres := Accept (w : pv) | Reject | Propagate (e : exn).
 
@@ -83,7 +87,8 @@ Fixpoint is_fast (d : desc) : bool :=
   | DEnum _ | DMap _ | DInstance _ _ _ | DAdapt _ _ _ _ | DSelf _ | DCallable _ => true
   | DTuple ds => negb (is_nil_pv ds)                 (* trait_types.py:2333-2348 *)
   | DCompound ds => existsb is_fast ds               (* trait_handlers.py:680-686 *)
-  | DAny | DRangeI _ _ _ | DType _ _ | DString _ _ _ | DPrefixList _ | DPrefixMap _ | DUnion _ => false
+  | DAny | DRangeI _ _ _ | DType _ _ | DString _ _ _ | DPrefixList _ | DPrefixMap _ | DUnion _
+  | DArray _ _ _ => false
   end.
 
 (* ---------- ctraits.c:3535 in_float_range (reference; T2 regenerates it from the source) ---------- *)
@@ -284,6 +289,57 @@ Definition py_tuple0 (v : pv) : vres :=                          (* Tuple.valida
   | _ => Reject
   end.
 
+(* trait_numeric.py:122-162 AbstractArray.validate.  numpy is an oracle: 299 asarray(v), 300+t asarray(v, dtype t),
+   400+10*t+casting  arr.astype(t, casting=...) — absent entry = numpy raised (caught by the bare except) *)
+Definition dim_ok (d : dim) (n : Z) : bool :=
+  match d with
+  | DimAny => true
+  | DimEq k => n =? k
+  | DimRange lo hi => (lo <=? n) && match hi with Some h => n <=? h | None => true end
+  end.
+Fixpoint shape_ok (spec : list dim) (sh : list Z) : bool :=
+  match spec, sh with
+  | [], [] => true
+  | d :: spec', n :: sh' => dim_ok d n && shape_ok spec' sh'
+  | _, _ => false
+  end.
+Definition as_array (o : option pv) : option pv :=
+  match o with Some (PArray k s c) => Some (PArray k s c) | _ => None end.
+Definition arr_dtype_ok (dt : option Z) (a : pv) : bool :=
+  match a with
+  | PArray k _ _ => match dt with Some t => k =? t | None => true end
+  | _ => false
+  end.
+Definition arr_shape_ok (shape : option (list dim)) (a : pv) : bool :=
+  match a with
+  | PArray _ sh _ => match shape with Some spec => shape_ok spec sh | None => true end
+  | _ => false
+  end.
+Definition py_array (E : env) (dt : option Z) (shape : option (list dim)) (casting : Z) (v : pv) : vres :=
+  let arr0 :=
+    match v with
+    | PArray _ _ _ => Some v                                               (* isinstance(value, ndarray) *)
+    | PTuple _ | PTupleSub _ | PList _ =>                                  (* SequenceTypes: asarray(value[, dtype]) *)
+        as_array (oracle E (match dt with Some t => 300 + t | None => 299 end) v)
+    | _ => None
+    end in
+  match arr0 with
+  | None => Reject
+  | Some a0 =>
+      let arr1 :=
+        if arr_dtype_ok dt a0 then Some a0                                 (* value.dtype == self.dtype, or no dtype *)
+        else match dt with
+             | Some t => as_array (oracle E (400 + 10 * t + casting) a0)   (* value.astype(dtype, casting=...) *)
+             | None => None
+             end in
+      match arr1 with
+      | Some a1 =>
+          (* astype yields the requested dtype (numpy's guarantee, re-checked on the oracle's answer); shape test 140-158 *)
+          if arr_dtype_ok dt a1 && arr_shape_ok shape a1 then Accept a1 else Reject
+      | None => Reject
+      end
+  end.
+
 (* ---------- the validators ---------- *)
 Fixpoint c_validate (E : env) (d : desc) (v : pv) {struct d} : vres :=
   match d with
@@ -331,6 +387,7 @@ Fixpoint c_validate (E : env) (d : desc) (v : pv) {struct d} : vres :=
   | DPrefixList vals => py_prefix vals v
   | DPrefixMap m => py_prefix (map fst m) v
   | DUnion ds => first_sel (fun _ => true) (fun a => c_validate E a v) ds   (* Union.validate 4189 *)
+  | DArray dt shape casting => py_array E dt shape casting v
   end
 
 (* one case of the switch in validate_trait_complex; `Reject` = `break` (try the next item) *)
@@ -395,8 +452,15 @@ with c_case (E : env) (d : desc) (v : pv) {struct d} : vres :=
       | Raises e => Propagate e
       | Returns w => Accept w
       end
+  | DCompound ds =>
+      (* a nested compound with a fast descriptor is flattened into the list (trait_handlers.py:650-653): its fast
+         items in place, then its own (slow, inner) item — the same order as deciding the inner compound here *)
+      match first_sel is_fast (fun a => c_case E a v) ds with
+      | Reject => first_sel is_slow (fun a => py_validate E a v) ds
+      | x => x
+      end
   | DAny | DRangeI _ _ _ | DType _ _ | DString _ _ _ | DPrefixList _ | DPrefixMap _
-  | DUnion _ | DCompound _ => Reject          (* never entered in the fast list (wf_desc) *)
+  | DUnion _ | DArray _ _ _ => Reject          (* never entered in the fast list (wf_desc) *)
   end
 
 with py_validate (E : env) (d : desc) (v : pv) {struct d} : vres :=
@@ -482,6 +546,7 @@ with py_validate (E : env) (d : desc) (v : pv) {struct d} : vres :=
       end
   | DUnion ds =>                                                (* Union.validate 4189: CTrait.validate of each *)
       first_sel (fun _ => true) (fun a => c_validate E a v) ds
+  | DArray dt shape casting => py_array E dt shape casting v
   end.
 
 (* ---------- well-formedness of a description (what the constructors can build) ---------- *)
@@ -490,7 +555,7 @@ Fixpoint wf_desc (d : desc) : bool :=
   | DTuple ds => forallb wf_desc ds
   | DCompound ds =>
       forallb wf_desc ds &&
-      forallb (fun a => match a with DAny | DCompound _ | DModule => false | _ => true end) ds &&
+      forallb (fun a => match a with DAny | DModule => false | _ => true end) ds &&
       negb (is_nil_pv ds)
   | DUnion ds => forallb wf_desc ds && negb (is_nil_pv ds)
   | _ => true
